@@ -18,7 +18,7 @@
 
 // The generator is src/gen/c17_pipelines.rs; it is included by path so that this file builds whether or not gen/mod.rs lists it
 #[path = "../gen/c17_pipelines.rs"]
-mod gen;
+pub mod gen;
 
 use crate::json::Json;
 use crate::report::{Ctx, Report};
